@@ -108,7 +108,11 @@ def money_case(chk, h, convs, label):
             {"k": k + ".conv", "e": M(Q(["i", 100], "EUR"), "convert",
                                       U("USD"))},
             {"k": k + ".eq", "e": OP("==", Q(["i", 100], "EUR"),
-                                     Q(["i", 100], "USD"))}]
+                                     Q(["i", 100], "USD"))},
+            {"k": k + ".lt", "e": OP("<", Q(["i", 100], "USD"),
+                                     Q(["i", 100], "EUR"))},
+            {"k": k + ".add", "e": OP("+", Q(["i", 0], "USD"),
+                                      Q(["i", 100], "EUR"))}]
 
     def build(actions, stack):
         steps = []
@@ -135,7 +139,10 @@ def money_case(chk, h, convs, label):
                 stack.append(c)
                 pk, ps = probe()
                 expected[pk] = dict(kind="probe", stack=list(stack))
-                inner = ps + build(body, stack)
+                inner = [{"k": k + ".bound", "e": ["is", V("bound"),
+                                                    V("$" + c)]}] + ps + \
+                    build(body, stack)
+                expected[k + ".bound"] = dict(kind="bound", what=c)
                 # __exit__ is an unregister attempt
                 if stack and stack[-1] == c:
                     stack.pop()
@@ -145,6 +152,7 @@ def money_case(chk, h, convs, label):
                     expected[k] = dict(kind="with", leave=leave,
                                        exit_ok=False, what="with %s" % c)
                 steps.append({"with": V("$" + c), "body": inner, "k": k,
+                              "id": "bound",
                               "raise": "marker" if leave == "exc" else None})
             pk, ps = probe()
             expected[pk] = dict(kind="probe", stack=list(stack))
@@ -196,6 +204,11 @@ def money_case(chk, h, convs, label):
                     if eq.get("v") is not False:
                         bad.append("%s: no converter active but 100 EUR == "
                                    "100 USD is %s" % (k, brief(eq)))
+                    for kk in (".lt", ".add"):
+                        if not is_exc(obs.get(k + kk), "UnitConversionError"):
+                            bad.append("%s: no converter active but %s gives "
+                                       "%s" % (k, kk[1:],
+                                               brief(obs.get(k + kk))))
                 else:
                     top = exp["stack"][-1]
                     want_amt = 100 * RATES[top]
@@ -214,6 +227,24 @@ def money_case(chk, h, convs, label):
                                    "= %s USD) but conversion gives %s%s" %
                                    (k, top, want_amt, brief(conv),
                                     " (rate of %s)" % who[0] if who else ""))
+                    # the other operations that consult converters must use
+                    # the same (most recent) one: 0 USD + 100 EUR in USD,
+                    # 100 USD < 100 EUR (every rate is > 1)
+                    add = obs.get(k + ".add")
+                    if add is None or add.get("k") != "Q" or \
+                            val(add) != want_amt or add["u"] != "USD":
+                        bad.append("%s: 0 USD + 100 EUR gives %s, the most "
+                                   "recent converter %s says %s USD" %
+                                   (k, brief(add), top, want_amt))
+                    lt = obs.get(k + ".lt", {})
+                    if lt.get("v") is not True:
+                        bad.append("%s: 100 USD < 100 EUR is %s" %
+                                   (k, brief(lt)))
+            elif exp["kind"] == "bound":
+                r = obs.get(k, {})
+                if r.get("v") is not True:
+                    bad.append("%s: `with %s as x`: x is not the converter" %
+                               (k, exp["what"]))
             elif exp["kind"] == "ok":
                 r = obs.get(k, {})
                 if r.get("k") == "E":
